@@ -151,6 +151,14 @@ VERUS_UNITS = {
             ('sys: self.inner->Some_0.sys_command, mode: ReactorMode::Persistent }),', 'sys: self.inner->Some_0.sys_command, mode: ReactorMode::Cleanup }),', 'EntityReactor::add'),
         ],
     },
+    'runner': {
+        'template': 'runner.rs.tpl',
+        'owners': [(r'syscommand_runner$', ['C03', 'C05', 'C13', 'C18'])],
+        'negctl': [
+            ('(final(world).counter().0 == 0 && final(world).queue().commands@.len() == 0))', '(final(world).counter().0 == 1 && final(world).queue().commands@.len() == 0))', 'syscommand_runner'),
+            ('idx != 0) ==> (final(world).queue().commands@ == w0.queue().commands@.push(', 'idx != 0) ==> (final(world).queue().commands@ == w0.queue().commands@.drop_last().push(', 'syscommand_runner'),
+        ],
+    },
     'lemmas': {
         'template': 'lemmas.rs.tpl',
         'owners': [
@@ -211,7 +219,7 @@ PROPS = {
         note=ENVNOTE + '; `unsafe` in run_initialized_system trusted; stub System = assumed contract of bevy System (run = run_unsafe + apply_deferred; exclusive run = body + flush)',
         explanation='cleanup placement complete per (exclusive?, #deferred) shape by Kani on the real function; end_* and readers proved by Verus; once() closure and tree positions not covered'),
     'C05': dict(category='other', design_ref='DESIGN.md 5/C05',
-        text='Verus proves on verbatim text: DataEntityCounter arithmetic (released at exactly the n-th of n decrements, lemma L2); try_cleanup_data_entity despawns the payload entity iff the decrement reaches 0 and is a no-op for entities that are gone or carry no counter; end_{entity_event,broadcast_event} perform exactly one such cleanup on the current event\'s data entity, end_system_event despawns its payload entity; schedule_broadcast_reaction spawns ONE payload entity whose counter equals the number of queued readers (any list length) and spawns nothing for zero listeners; cleanup_on_abort runs setup then cleanup for a skipped run. Kani: schedule_entity_event_reaction counter = number of queued readers (scoped + type-wide) for bounded shapes; try_cleanup_data_entity on the stub World. Not covered: release at the latest when the tree ends / root discard (runner).',
+        text='Verus proves on verbatim text: DataEntityCounter arithmetic (released at exactly the n-th of n decrements, lemma L2); try_cleanup_data_entity despawns the payload entity iff the decrement reaches 0 and is a no-op for entities that are gone or carry no counter; end_{entity_event,broadcast_event} perform exactly one such cleanup on the current event\'s data entity, end_system_event despawns its payload entity; schedule_broadcast_reaction spawns ONE payload entity whose counter equals the number of queued readers (any list length) and spawns nothing for zero listeners; cleanup_on_abort runs setup then cleanup for a skipped run; on every path of syscommand_runner on which the target cannot run now (entity gone, storage missing, callback taken at the root) exactly one cleanup_on_abort happens after the entry cleanup and nothing else, and a command whose callback is taken below the root is postponed without any cleanup (Verus, the runner verbatim except for the replay closure, which is replaced by an uninterpreted effect and NOT verified). Kani: schedule_entity_event_reaction counter = number of queued readers (scoped + type-wide) for bounded shapes; try_cleanup_data_entity on the stub World. Not covered: release at the latest when the tree ends / root discard (runner).',
         note=ENVNOTE,
         explanation='counter, cleanup, broadcast scheduling proved by Verus (unbounded); entity-event scheduling bounded (Kani); runner paths not covered'),
     'C06': dict(category='other', design_ref='DESIGN.md 5/C06',
@@ -243,7 +251,7 @@ PROPS = {
         note=ENVNOTE + '; component/resource instantiated at a u32 newtype',
         explanation='accessor clauses complete@shape (Kani, loop-free, full value domain); dispatch of the trigger bounded (Kani)'),
     'C18': dict(category='other', design_ref='DESIGN.md 5/C18',
-        text='Function-level robustness contracts: Verus (verbatim, unbounded): revoke_reactor skips - does not abort on - token elements whose entity is gone and still processes all later elements; try_cleanup_data_entity is a no-op on a dead entity; cleanup_on_abort runs setup+cleanup whether or not the target exists. Kani (every reachable panic is a failed obligation): try_cleanup_data_entity on dead / counter-less entities, schedule_entity_event_reaction for a target without reactor list, tracker start without entry, revoke_* with absent key/id. Not covered: targets dying while commands for them are postponed (runner).',
+        text='Function-level robustness contracts: Verus (verbatim, unbounded): revoke_reactor skips - does not abort on - token elements whose entity is gone and still processes all later elements; try_cleanup_data_entity is a no-op on a dead entity; cleanup_on_abort runs setup+cleanup whether or not the target exists; syscommand_runner takes the abort path - one cleanup_on_abort, no system run - exactly when the target entity is gone, has no storage, or its callback is out at the root (runner verbatim except for the replay closure). Kani (every reachable panic is a failed obligation): try_cleanup_data_entity on dead / counter-less entities, schedule_entity_event_reaction for a target without reactor list, tracker start without entry, revoke_* with absent key/id. Not covered: targets dying while commands for them are postponed (runner).',
         note=ENVNOTE,
         explanation='dead-target paths of revoke walk, payload cleanup and abort proved by Verus; no-panic/no-effect harnesses by Kani; runner not covered'),
 }
